@@ -43,7 +43,17 @@ GroupAllowed(st, t, ver, g) ==
   \* (EC)DHE group: elliptic curves and x25519/x448 by name; finite-field groups by name when RFC 7919 was used
   IF ver = 4 \/ Kex(t) \in {"ecdhe_rsa", "ecdhe_ecdsa", "ecdh_anon"}
   THEN (g # "" => g \in st.curves \cup st.dhGroups)
+  \* finite-field DHE in TLS <= 1.2: a group the harness recognised as an RFC 7919 group must be enabled;
+  \* ("custom-<bits>" = another prime: allowed only where RFC 7919 negotiation has nothing to offer, see FfdheRule)
+  ELSE IF Kex(t) \in {"dhe_rsa", "dhe_dsa", "dh_anon"} /\ g \in {"ffdhe2048", "ffdhe3072", "ffdhe4096", "ffdhe6144", "ffdhe8192"}
+  THEN g \in st.dhGroups
   ELSE TRUE
+
+\* RFC 7919: when the client's supported_groups names finite-field groups and the server enables one of them,
+\* the server uses such a common group (never a prime outside both policies)
+FfdheRule(cs, ss, v) ==
+  (v.ver < 4 /\ Kex(v.tokens) \in {"dhe_rsa", "dhe_dsa", "dh_anon"} /\ v.group # "" /\ (cs.dhGroups \cap ss.dhGroups) # {})
+     => v.group \in (cs.dhGroups \cap ss.dhGroups)
 
 WithinPolicy(st, v, isClient) ==
   /\ v.ver \in st.vers
@@ -66,6 +76,7 @@ LimitToward(receiverRsl, senderRsl, ver) ==
 Outcome(cs, ss, c, s) ==
   /\ Agreement(c, s)
   /\ WithinPolicy(cs, c, TRUE) /\ WithinPolicy(ss, s, FALSE)
+  /\ FfdheRule(cs, ss, c)
   /\ c.ver = Max(cs.vers \cap ss.vers)                         \* highest common version: no self-inflicted downgrade
   /\ c.sendLimit = LimitToward(ss.rsl, cs.rsl, c.ver)
   /\ s.sendLimit = LimitToward(cs.rsl, ss.rsl, c.ver)
@@ -74,6 +85,7 @@ Outcome(cs, ss, c, s) ==
 \* suite both allow that the server's credentials can serve, a group and EMS compatibility
 CredServes(certKey, t, ver) ==
   IF ver = 4 THEN certKey \in {"rsa", "ecdsa", "rsapss"}
+  ELSE IF certKey = "anon" THEN CertKey(t) = "none" /\ Kex(t) \in {"dh_anon", "ecdh_anon"}
   ELSE IF certKey = "rsapss"
        \* an rsa-pss certificate signs (RSA-PSS, TLS 1.2 only) but cannot decrypt a ClientKeyExchange
        THEN ver = 3 /\ CertKey(t) = "rsa" /\ Kex(t) # "rsa"
